@@ -6,6 +6,7 @@ from abc import ABC
 from abc import abstractmethod
 from typing import TYPE_CHECKING
 from typing import Generic
+from typing import Iterable
 from typing import List
 from typing import Sequence
 from typing import TypeVar
@@ -302,7 +303,20 @@ class RelativeFilterQuery(FilterQuery):
                 )
             return JSONPathNodeList()
 
-        return JSONPathNodeList(self.query.find(context.current))
+        # Start from the current node but keep the root of the query argument,
+        # so `$` inside nested filters still refers to the outermost root.
+        nodes: Iterable[JSONPathNode] = [
+            JSONPathNode(
+                value=context.current,
+                location=(),
+                root=context.root,
+            )
+        ]
+
+        for segment in self.query.segments:
+            nodes = segment.resolve(nodes)
+
+        return JSONPathNodeList(nodes)
 
 
 class RootFilterQuery(FilterQuery):
